@@ -1,5 +1,6 @@
 import Apko.Model.Accounts
 import Apko.Proofs.Lemmas.Accounts
+import Apko.Proofs.Lemmas.AccountsExt
 import Apko.Generated.Accounts
 /-! C13 — declared accounts and path mutations are realized in the image
 (theorems over `Model/Accounts.lean`, which composes `Model/FS.lean` and `Model/Formats.lean`) -/
@@ -76,6 +77,73 @@ theorem perm_post (c : Cfg) (fs fs' : FS) (hi : FS.Inv fs) (p : Text) (perms uid
         simp [a1, a2, a3, a4]
       simp [hp]
   · intro j hj; simp [node_setAttrs, hj]
+
+/-- the state a known mutator leaves, for the kinds that are followed by `mutatePermissions` -/
+theorem mutateOne_inv (c : Cfg) (fs fs' : FS) (m : Mutation) (hi : FS.Inv fs)
+    (hk : m.type ∈ [tDirectory, tEmptyFile, tHardlink, tSymlink, tPermissions])
+    (h : mutateOne c fs m = (fs', none)) :
+    ∃ fs1, FS.Inv fs1 ∧ mutatePermissions c fs1 m = (fs', none) ∧
+      (m.type = tSymlink → mutateSymLink c fs m = (fs1, none)) ∧
+      (m.type = tPermissions → fs1 = fs) := by
+  simp only [List.mem_cons, List.mem_nil_iff, or_false] at hk
+  have ne1 : tSymlink ≠ tPermissions := by decide
+  rcases hk with hk | hk | hk | hk | hk
+  · rw [mutateOne_directory c fs m hk] at h
+    obtain ⟨fs1, h1, h2⟩ := andThen_ok (liftE_ok h)
+    have : FS.Inv fs1 := by
+      have := inv_mutateDirectory c fs m hi; simp only [Prod.mk.injEq] at h1; rw [h1.1] at this; exact this
+    refine ⟨fs1, this, h2, ?_, ?_⟩ <;> intro ht <;> rw [hk] at ht <;> exact absurd ht (by decide)
+  · rw [mutateOne_emptyFile c fs m hk] at h
+    obtain ⟨fs1, h1, h2⟩ := andThen_ok (liftE_ok h)
+    have : FS.Inv fs1 := by have := inv_mutateEmptyFile c fs m hi; rw [h1] at this; exact this
+    refine ⟨fs1, this, h2, ?_, ?_⟩ <;> intro ht <;> rw [hk] at ht <;> exact absurd ht (by decide)
+  · rw [mutateOne_hardlink c fs m hk] at h
+    obtain ⟨fs1, h1, h2⟩ := andThen_ok (liftE_ok h)
+    have : FS.Inv fs1 := by have := inv_mutateHardLink c fs m hi; rw [h1] at this; exact this
+    refine ⟨fs1, this, h2, ?_, ?_⟩ <;> intro ht <;> rw [hk] at ht <;> exact absurd ht (by decide)
+  · rw [mutateOne_symlink c fs m hk] at h
+    obtain ⟨fs1, h1, h2⟩ := andThen_ok (liftE_ok h)
+    have : FS.Inv fs1 := by have := inv_mutateSymLink c fs m hi; rw [h1] at this; exact this
+    exact ⟨fs1, this, h2, fun _ => h1, fun ht => absurd (hk.symm.trans ht) ne1⟩
+  · rw [mutateOne_permissions c fs m hk] at h
+    refine ⟨fs, hi, liftE_ok h, ?_, fun _ => rfl⟩
+    intro ht; rw [hk] at ht; exact absurd ht.symm ne1
+
+/-- **mutation_post (every kind): permission bits and ownership.**  After a successful iteration of
+`mutatePaths` for a mutation of any of the five kinds, the node the declared path resolves to
+carries exactly the declared Unix permission bits (set-id and sticky included) and owner. -/
+theorem mutation_post_attrs (c : Cfg) (fs fs' : FS) (m : Mutation) (hi : FS.Inv fs)
+    (hk : m.type ∈ [tDirectory, tEmptyFile, tHardlink, tSymlink, tPermissions])
+    (h : mutateOne c fs m = (fs', none)) :
+    ∃ i, follow c fs' m.path = some i ∧ permBitsOK (fs'.node i) m.perms = true ∧
+      ownerOK (fs'.node i) m.uid m.gid = true := by
+  obtain ⟨fs1, hi1, h2, _, _⟩ := mutateOne_inv c fs fs' m hi hk h
+  obtain ⟨i, _, hf, hp, ho, _⟩ := perm_post c fs1 fs' hi1 m.path m.perms m.uid m.gid h2
+  exact ⟨i, hf, hp, ho⟩
+
+/-- an iteration for a kind the table does not have fails and changes nothing -/
+theorem mutation_unknown_type (c : Cfg) (fs : FS) (m : Mutation)
+    (h : m.type ∉ [tDirectory, tEmptyFile, tHardlink, tSymlink, tPermissions]) :
+    mutateOne c fs m = (fs, some .badType) := mutateOne_unknown c fs m h
+
+/-- **mutation_post (permissions)**: the Spec post-condition holds in full -/
+theorem mutation_post_permissions (c : Cfg) (fs fs' : FS) (m : Mutation) (hi : FS.Inv fs)
+    (ht : m.type = tPermissions) (h : mutateOne c fs m = (fs', none)) : specMutation c fs' m = [] := by
+  obtain ⟨i, hf, hp, ho⟩ := mutation_post_attrs c fs fs' m hi (by simp [ht]) h
+  simp [specMutation, ht, tSymlink, tDirectory, tEmptyFile, tHardlink, tPermissions, hf, attrFails, hp, ho]
+
+/-- **mutation_post (symlink)**: after a successful iteration the declared path holds a symbolic
+link entry whose target is the declared source (the entry itself: the last component is not
+followed). -/
+theorem symlink_post (c : Cfg) (hc : c.posix = false) (fs fs' : FS) (m : Mutation) (hi : FS.Inv fs)
+    (ht : m.type = tSymlink) (h : mutateOne c fs m = (fs', none)) :
+    ∃ k, entryOf c fs' m.path = some k ∧ (fs'.node k).isSymlink = true ∧ (fs'.node k).target = m.source := by
+  obtain ⟨fs1, hi1, h2, hs, _⟩ := mutateOne_inv c fs fs' m hi (by simp [ht]) h
+  obtain ⟨k, he, hsym, htg, _, _⟩ := mutateSymLink_post hc hi (hs ht)
+  obtain ⟨i, _, _, _, _, _, _, _, hsh, _⟩ := perm_post c fs1 fs' hi1 m.path m.perms m.uid m.gid h2
+  refine ⟨k, by rw [entryOf_shape hsh]; exact he, ?_, ?_⟩
+  · rw [hsh.sym k]; exact hsym
+  · rw [hsh.target k]; exact htg
 
 /-! ## ties: the source the model was written from (regenerated on every run) -/
 
